@@ -9,6 +9,7 @@ import Hg.Model.Immut
 import Hg.Model.Live
 import Hg.Model.Spec
 import Hg.Model.Shape
+import Hg.Model.Fcn
 
 namespace Hg.Proto
 open Hg Hg.Wire
@@ -250,6 +251,26 @@ def step (pool : Pool) (cmd : Json) : Pool × Json :=
       match (strOf? h).bind pool.get? with
       | some a => (pool, .bool (noBins a))
       | none => (pool, err "no handle")
+    | "$wrap", [b, .arr ops] =>
+      match natOf? b, ops.mapM (fun o => match strOf? o with
+          | some "cached" => some WOp.cached
+          | some "serializable" => some WOp.serializable
+          | some s => if s.startsWith "named:" then some (WOp.named (s.drop 6).toString) else none
+          | none => none) with
+      | some b, some ops =>
+        match (Fcn.ofBase b).applyAll ops with
+        | some f => (pool, .arr [match f.name with | some n => .str ("$" ++ n) | none => .null, .bool f.cached])
+        | none => (pool, .str "$raise")
+      | _, _ => (pool, err "bad wrap")
+    | "$cachedrun", [.arr calls] =>
+      match calls.mapM natOf? with
+      | some cs =>
+        -- which calls evaluate the underlying function (a miss) with g := fun a => a
+        let r := cs.foldl (fun (acc : Memo × List Json) a =>
+          let hit : Bool := match acc.1 with | some (a', _) => decide (a' = a) | none => false
+          ((callCached (fun x => x) acc.1 a).2, .bool hit :: acc.2)) (none, [])
+        (pool, .arr r.2.reverse)
+      | none => (pool, err "bad cachedrun")
     | "$checkcross", [sh] =>
       match shapeOf? sh with
       | some t => let r := Shape.checkCross t; (pool, .arr [.bool r.2, shapeJson r.1])
